@@ -101,12 +101,27 @@ type binder struct {
 	tables *Tables
 	flags  map[string]txscript.ScriptFlags
 
+	tmu     sync.Mutex
 	mu      sync.Mutex
 	samples int
 }
 
 func newBinder(c *vrun.Ctx) *binder {
 	return &binder{c: c, w: NewWorld(c.Seed), in: newInterner()}
+}
+
+// ensureTables reads the tables once (every TLC run prints the same ones).
+func (b *binder) ensureTables(out string) error {
+	b.tmu.Lock()
+	defer b.tmu.Unlock()
+	if b.tables != nil {
+		return nil
+	}
+	tb, err := parseTables(out)
+	if err != nil {
+		return err
+	}
+	return b.setTables(tb)
 }
 
 func (b *binder) setTables(t *Tables) error {
@@ -362,12 +377,40 @@ func (b *binder) describe(pc *progCase) string {
 }
 
 // runProgCase replays one case and reports divergences.
-func (b *binder) runProgCase(pc *progCase) error {
-	c := b.c
-	sp, cc, err := b.buildProgSpend(pc.t, pc.init, pc.prog)
-	if err != nil {
-		return fmt.Errorf("%s: %w", b.describe(pc), err)
+// runProgBundle replays all configurations of one program; the concrete
+// spend is built once per (mode, tx context) and run under every flag set.
+func (b *binder) runProgBundle(cases []*progCase) error {
+	type built struct {
+		sp *spend
+		cc *Conc
 	}
+	cache := map[string]built{}
+	for _, pc := range cases {
+		k := pc.t.mode + "/" + pc.t.ctx
+		bt, ok := cache[k]
+		if !ok {
+			sp, cc, err := b.buildProgSpend(pc.t, pc.init, pc.prog)
+			if err != nil {
+				return fmt.Errorf("%s: %w", b.describe(pc), err)
+			}
+			bt = built{sp, cc}
+			cache[k] = bt
+		}
+		fl, ok := b.flags[pc.t.fs]
+		if !ok {
+			return fmt.Errorf("unknown flag set %q", pc.t.fs)
+		}
+		sp := *bt.sp
+		sp.flags = fl
+		if err := b.runProgCase(pc, &sp, bt.cc); err != nil {
+			return err
+		}
+	}
+	return nil
+}
+
+func (b *binder) runProgCase(pc *progCase, sp *spend, cc *Conc) error {
+	c := b.c
 	g := pc.chain[len(pc.chain)-1]
 	if len(pc.prog) == 0 {
 		g = pc.chain[0]
@@ -459,6 +502,9 @@ func (b *binder) compareSteps(pc *progCase, sp *spend, cc *Conc, r *stepRes, g *
 			continue
 		}
 		if i == P && len(pc.prog) == 0 && specOK {
+			if g.keep < 0 {
+				continue
+			}
 			exp = exp[:min(g.keep, len(exp))]
 		}
 		wb, err := want(exp)
@@ -505,6 +551,9 @@ func (b *binder) compareSteps(pc *progCase, sp *spend, cc *Conc, r *stepRes, g *
 		}
 		expSt := e.s.st
 		if j == n && specOK {
+			if g.keep < 0 {
+				continue // accepted without running a script: the final stack is not defined
+			}
 			expSt = expSt[:min(g.keep, len(expSt))]
 		}
 		ws, err := want(expSt)
@@ -559,20 +608,20 @@ func (b *binder) parseGroup(v tla.Value) grp {
 	return g
 }
 
-// progRun is one TLC run of MCProg.tla.
+// progRun is one TLC run of MCProg.tla over a set of enumerations (RunDef).
 type progRun struct {
 	name    string
-	maxLen  int
-	alpha   string
-	init    string
-	cfg     string
+	runs    []string
 	workers int
 	timeout time.Duration
 }
 
 func (p progRun) cfgText() string {
-	return fmt.Sprintf("SPECIFICATION Spec\nCONSTANTS\n  MaxLen = %d\n  AlphaName = %q\n  InitName = %q\n  CfgName = %q\n  ScriptOf <- NoScript\nINVARIANTS Limits Partition\n",
-		p.maxLen, p.alpha, p.init, p.cfg)
+	q := make([]string, len(p.runs))
+	for i, r := range p.runs {
+		q[i] = fmt.Sprintf("%q", r)
+	}
+	return fmt.Sprintf("SPECIFICATION Spec\nCONSTANTS\n  RunNames = {%s}\n  ScriptOf <- NoScript\nINVARIANTS Limits Partition\n", strings.Join(q, ", "))
 }
 
 // runProg model-checks one MCProg configuration and replays every
@@ -590,19 +639,14 @@ func (b *binder) runProg(p progRun) error {
 		return fmt.Errorf("MCProg %s: the specification violates its own invariant %s %s\n%s", p.name, res.ErrKind, res.ErrName, tail(res.Output, 3000))
 	}
 	c.AddModel(res.Distinct, res.Generated)
-	if b.tables == nil {
-		tb, err := parseTables(res.Output)
-		if err != nil {
-			return err
-		}
-		if err := b.setTables(tb); err != nil {
-			return err
-		}
+	if err := b.ensureTables(res.Output); err != nil {
+		return err
 	}
 	c.Logf("MCProg %s: %d states in %.0fs", p.name, res.Distinct, time.Since(t0).Seconds())
 
 	nodes := map[uint64]*pnode{}
-	work := make(chan *progCase, 256)
+	perRun := map[string]int{}
+	work := make(chan []*progCase, 256)
 	var wg sync.WaitGroup
 	var firstErr error
 	var emu sync.Mutex
@@ -611,8 +655,8 @@ func (b *binder) runProg(p progRun) error {
 		wg.Add(1)
 		go func() {
 			defer wg.Done()
-			for pc := range work {
-				if err := b.runProgCase(pc); err != nil {
+			for bundle := range work {
+				if err := b.runProgBundle(bundle); err != nil {
 					emu.Lock()
 					if firstErr == nil {
 						firstErr = err
@@ -643,6 +687,7 @@ func (b *binder) runProg(p progRun) error {
 			anc[j] = a
 		}
 		anc[n] = pk.node
+		var bundle []*progCase
 		for gi := range pk.node.groups {
 			g := &pk.node.groups[gi]
 			for _, t := range g.cf {
@@ -668,9 +713,10 @@ func (b *binder) runProg(p progRun) error {
 					continue
 				}
 				c.Distinct(fmt.Sprintf("%s/%s/%s/%s/%s", t.mode, lastOpName(pk.prog), g.x, g.s.err, g.v))
-				work <- pc
+				bundle = append(bundle, pc)
 			}
 		}
+		work <- bundle
 		return true
 	}
 	count, err := readDump(dump+".dump", func(st tla.State) error {
@@ -680,7 +726,8 @@ func (b *binder) runProg(p progRun) error {
 		for i, t := range prog {
 			pstr[i] = t.key
 		}
-		istr := st["init"].String()
+		istr := st["run"].Str() + "|" + st["init"].String()
+		perRun[st["run"].Str()]++
 		node := &pnode{}
 		for _, gv := range st["res"].Set() {
 			node.groups = append(node.groups, b.parseGroup(gv))
@@ -699,9 +746,8 @@ func (b *binder) runProg(p progRun) error {
 			}
 			waiting = rest
 		}
-		if b.samples < 3 && len(prog) >= 2 && len(node.groups) > 1 {
-			b.samples++
-			c.Sample(map[string]any{"run": p.name, "init": shortStack(init), "program": shortProg(prog), "groups": groupSummary(node)})
+		if len(prog) >= 2 && len(node.groups) > 1 && b.takeSample(3) {
+			c.Sample(map[string]any{"run": st["run"].Str(), "init": shortStack(init), "program": shortProg(prog), "groups": groupSummary(node)})
 		}
 		return nil
 	})
@@ -725,7 +771,8 @@ func (b *binder) runProg(p progRun) error {
 	if int64(count) != res.Distinct {
 		return fmt.Errorf("MCProg %s: dump has %d states, TLC reports %d", p.name, count, res.Distinct)
 	}
-	c.Logf("MCProg %s: replayed (%.0fs total)", p.name, time.Since(t0).Seconds())
+	c.Logf("MCProg %s: replayed %v (%.0fs total)", p.name, perRun, time.Since(t0).Seconds())
+	c.SetExtra("mcprog_states_"+p.name, perRun)
 	if c.Thorough {
 		for _, a := range []string{"Init", "Extend"} {
 			if res.ActionCount[a] == 0 {
@@ -734,6 +781,16 @@ func (b *binder) runProg(p progRun) error {
 		}
 	}
 	return nil
+}
+
+func (b *binder) takeSample(limit int) bool {
+	b.mu.Lock()
+	defer b.mu.Unlock()
+	if b.samples >= limit {
+		return false
+	}
+	b.samples++
+	return true
 }
 
 func lastOpName(p []*Tok) string {
